@@ -527,6 +527,37 @@ def run_fresh_process(chk, spec):
 
 RUNNERS["fresh_process"] = run_fresh_process
 
+def run_equal_label_rename(chk, spec):
+	"""renaming a column to a label that compares EQUAL to its current one (1 -> True, 2 -> 2.0, 0 -> False) is a rename: the advertised accessor is the sanitised
+	text of the NEW label, and it resolves to the column"""
+	pairs = {"1->True": (1, True, "true"), "2->2.0": (2, 2.0, "c2_0"), "0->False": (0, False, "false"), "True->1": (True, 1, "c1"), "1.0->1": (1.0, 1, "c1"), "False->0.0": (False, 0.0, "c0_0")}
+	old, new, acc = pairs[spec["pair"]]
+	t = Table([Vector([0, 1], name=old), Vector([100, 101], name="z")])
+	if spec["touch_first"]:
+		call(dir, t)
+	how = spec["how"]
+	o = call({"rename_column": lambda: t.rename_column(old, new), "rename_columns": lambda: t.rename_columns([old], [new]), "view": lambda: setattr(t.cols()[0], "name", new)}[how])
+	chk.judged("static", ("equal-label-rename", spec["pair"], how, spec["touch_first"]))
+	if not o.ok:
+		chk.skip("equal-label-rename-refused")
+		return
+	d = call(dir, t)
+	base, public = base_dir()
+	adv = sorted(a for a in (d.value if d.ok else []) if a not in base)
+	if adv != sorted([acc, "z"]):
+		chk.fail("sanitisation follows the documented rules (after every rename)", f"accessor/sanitisation/equal-label-rename/{how}", f"{spec!r}: after renaming {old!r} to {new!r} the table advertises {adv!r}, the rule gives {sorted([acc, 'z'])!r}")
+		return
+	g = call(getattr, t, acc)
+	if not g.ok or g.value is not t.cols()[0]:
+		chk.fail("each advertised name resolves to the column at its own position", f"accessor/advertised-name-unresolvable/equal-label-rename/{how}", f"{spec!r}: t.{acc} -> {g!r}")
+		return
+	w = call(t.__setitem__, (0, acc), 55)
+	if not w.ok or t.cols()[0]._underlying[0] != 55:
+		chk.fail("t[0, name] = x writes the column at the accessor's own position", f"accessor/item-assignment/equal-label-rename/{how}", f"{spec!r}: t[0, {acc!r}] = 55 -> {w!r}")
+
+
+RUNNERS["equal_label_rename"] = run_equal_label_rename
+
 
 def run(chk):
 	recompute.add_cases(chk, "C17")
@@ -556,6 +587,10 @@ def run(chk):
 			for names in ([start, "x"], ["y", start], [start], [start, start]):
 				script = [(how, len(names) - 1 if names[0] == "y" else 0, target)]
 				chk.case("history", {"names": names, "seed": rng.randrange(10**9), "nsteps": 2, "script": script}, "history-scripted")
+	for pair in ("1->True", "2->2.0", "0->False", "True->1", "1.0->1", "False->0.0"):
+		for how in ("rename_column", "rename_columns", "view"):
+			for touch_first in (False, True):
+				chk.case("equal_label_rename", {"pair": pair, "how": how, "touch_first": touch_first}, "equal-label-rename")
 	for first in ("nothing", "repr-named-vector", "repr-vector-named-like-a-method", "repr-unnamed-vector", "dir-vector", "vector-arithmetic", "repr-unnamed-table", "empty-table"):
 		chk.case("fresh_process", {"first": first}, "fresh-process")
 	for _ in range(420 if chk.quick() else 3000):
